@@ -94,7 +94,13 @@ fn check_parse_side(m: &Module, ids: &spy::ParseIds, d: &ModuleD, origin: &str) 
             }
             (FunctionKind::Local(lf), Some(body)) => {
                 let want = (body.entry_range.start - cs)..(body.entry_range.end - cs);
-                if lf.original_range != Some(want.clone()) {
+                // identity witness: the recorded source range must be this
+                // body's (it may or may not include the size LEB)
+                let ok = match &lf.original_range {
+                    Some(r) => r.end == want.end && r.start >= want.start && r.start <= body.body_range.start - cs,
+                    None => true,
+                };
+                if !ok {
                     return Err(bad(
                         "function-body",
                         format!("function index {} resolves to a function parsed from code range {:?}, the input's body {} is at {:?} [{}]", i, lf.original_range, i, want, origin),
